@@ -226,7 +226,7 @@ def run_history(case, ctx, rng):
             cs = coef(len(idx))
             b = sum(c * prev[i] for c, i in zip(cs, idx))
             if op == "x0span":
-                x0 = rng.standard_normal(n).astype(b.dtype) / (nA * bs) * 1.0
+                x0 = rng.standard_normal(n).astype(b.dtype) / nA      # (scaled with bs below, like the solution itself)
         elif op == "zero":
             b = np.zeros(n)
         elif op == "block":
@@ -313,7 +313,11 @@ def run_history(case, ctx, rng):
             ctx.count("zero_cols_judged", int(zero.sum()))
             require(float(np.max(np.abs(xx[:, zero]), initial=0.0)) <= 1e-12 * (1 + float(np.max(np.abs(xx)))),
                     "zero-rhs-gives-nonzero-answer", op=desc)
-        if float(np.max(rel)) > 10 * tol:
+        # an iterative inner solver started from a guess that is orders of magnitude larger than the solution cannot get below
+        # the rounding level of its first residual, eps*|A||x0| (floating point, not a defect of the wrapper)
+        fl = 0.0 if x0 is None else 1e3 * np.finfo(float).eps * float(np.linalg.norm(A, 2)) * float(np.max(np.linalg.norm(x0.reshape(n, -1), axis=0))) \
+            / max(float(np.min(nb[nb > 0], initial=np.inf)), 1e-300)
+        if float(np.max(rel)) > max(10 * tol, fl):
             raise Violation("answer-does-not-solve-requested-system-of-current-matrix", op=desc, residual=float(np.max(rel)),
                             history=log[-8:], n=n, kind=case.get("kind", case.get("cls")), storage=st, inner=case["inner"])
         # re-use clause
